@@ -187,6 +187,8 @@ pub enum Context {
     Again,
     OtherApi,
     FreshProcess,
+    /// in a newly spawned OS thread (per-thread state of the library starts from scratch there)
+    FreshThread,
     WithAux,
     NoAux,
 }
